@@ -8,6 +8,24 @@ DT = {"float64": "<f8", "int32": "<i4", "big_int32": ">i4", "big_float64": ">f8"
 SH = {"0d": (), "empty": (0,), "empty2d": (3, 0), "vec": (7,), "mat": (3, 5), "cube": (2, 3, 4), "big": (70001,), "bigmat": (301, 233)}
 
 
+class Tagged(np.ndarray):
+    """a user-defined subclass carrying an attribute"""
+    def __array_finalize__(self, obj): self.tag = getattr(obj, "tag", "untagged")
+    def __reduce__(self):
+        f, args, state = super().__reduce__(); return (f, args, (state, self.tag))
+    def __setstate__(self, st):
+        super().__setstate__(st[0]); self.tag = st[1]
+
+
+def as_class(a, cls):
+    if cls == "matrix": return np.matrix(a, copy=False) if a.ndim == 2 else a
+    if cls == "recarray": return a.view(np.recarray)
+    if cls == "masked": return np.ma.MaskedArray(a, mask=(np.arange(a.size).reshape(a.shape) % 3 == 0) if a.shape else False)
+    if cls == "user":
+        t = a.view(Tagged); t.tag = "mine"; return t
+    return a
+
+
 def make(dtype, shape, layout, seed, d):
     rng = np.random.default_rng(seed)
     dt = np.dtype(DT[dtype]); shp = SH[shape]
@@ -42,6 +60,12 @@ def make(dtype, shape, layout, seed, d):
 
 def same(a, b):
     if not isinstance(a, np.ndarray) or not isinstance(b, np.ndarray): return "type"
+    if isinstance(a, np.ma.MaskedArray):
+        # (a masked array is its data and its mask)
+        if not isinstance(b, np.ma.MaskedArray): return "masked array came back as %s" % type(b).__name__
+        if not np.array_equal(np.ma.getmaskarray(a), np.ma.getmaskarray(b)): return "mask differs"
+        return same(np.asarray(a.data), np.asarray(b.data))
+    if isinstance(a, Tagged) and getattr(b, "tag", None) != a.tag: return "attribute of the subclass lost (%r)" % (getattr(b, "tag", None),)
     if a.dtype != b.dtype:
         # joblib loads arrays in the native byte order on purpose (finding D18): same values, byte order normalised
         if a.dtype.newbyteorder("=") == b.dtype and a.shape == b.shape and not a.dtype.hasobject and a.astype(a.dtype.newbyteorder("=")).tobytes() == b.tobytes():
@@ -65,7 +89,7 @@ def main():
     for ci, cs in enumerate(job["cases"]):
         rec = {"i": ci, "problems": []}
         try:
-            a = make(cs["dtype"], cs["shape"], cs["layout"], ci, d)
+            a = as_class(make(cs["dtype"], cs["shape"], cs["layout"], ci, d), cs.get("class", "ndarray"))
             obj = a if cs["container"] == "alone" else [1, a, {"k": a, "other": np.arange(3)}] if cs["container"] == "list" else {"x": (a, "s"), "y": a}
             comp = 0 if cs["compress"] == "none" else (cs["compress"], 3)
             path = os.path.join(d, "a%d.pkl" % ci)
@@ -105,10 +129,13 @@ def main():
                     def seekable(s): return True
                     def seek(s, *a): return s.b.seek(*a)
                     def tell(s): return s.b.tell()
-                r3 = joblib.load(ShortReads(open(path, "rb").read()))
-                g3s = r3 if cs["container"] == "alone" else r3[1] if cs["container"] == "list" else r3["y"]
-                pb = same(a, g3s)
-                if pb: rec["problems"].append("load from a stream with short reads: " + pb)
+                if cs.get("class", "ndarray") in ("ndarray", "matrix"):
+                    # (only where joblib reads the bytes itself: the payload of the other subclasses sits inside the pickle
+                    # stream, and the pickle module takes a short read for the end of the file)
+                    r3 = joblib.load(ShortReads(open(path, "rb").read()))
+                    g3s = r3 if cs["container"] == "alone" else r3[1] if cs["container"] == "list" else r3["y"]
+                    pb = same(a, g3s)
+                    if pb: rec["problems"].append("load from a stream with short reads: " + pb)
                 buf = io.BytesIO(); joblib.dump(obj, buf, compress=comp); r2 = joblib.load(io.BytesIO(buf.getvalue()))
                 g2 = r2 if cs["container"] == "alone" else r2[1] if cs["container"] == "list" else r2["y"]
                 pb = same(a, g2)
